@@ -9,4 +9,6 @@ CONSTANTS
   MaxRoots = 1
   OptMode = "full"
   ExactSize = 0
+  NeedDev2 = FALSE
+  OptSample = 0
 INVARIANTS DesignAgreeKF
